@@ -11,6 +11,7 @@ import (
 	"encoding/json"
 	"fmt"
 	"sort"
+	"strings"
 	"testing"
 	"time"
 
@@ -117,7 +118,7 @@ var c12Prior *ProofD
 func TestVerifC12Crypto(t *testing.T) {
 	r := vkit.Start(t, "C12", "crypto-layer", 240*time.Second, 1200*time.Second)
 	defer r.Finish()
-	r.Rule = "credential (50, tag, 20, tag) x disclosure sets x true statements (>=,<=; 3 and 4 squares; factors 1,3) on attributes 1 and 3: honest proofs; false statements at bound-+1 must not be creatable; every single-field alteration of every range proof (Cs, ds, vs, v5, l_d, sign, a, k incl. k moved across the boundary); every transplant (to another hidden index, a disclosed index below / above the largest hidden index, unused base, len(R), 1000, -1; from another credential; moved and copied, also with the non-transported attribute-response field pre-set by the sender); forgeries with the statement chosen after the challenge (commitments fixed first, bases C_i and bound k solved for once the challenge is known; 3 and 4 squares, both signs, factors 1,4,5,7); forgeries by omission (a zero-valued attribute mentioned neither as hidden nor as disclosed, a false range proof at the largest hidden index); consistent-lie forgeries (a well-formed range proof about a value satisfying the false statement, with the attribute's or a fresh randomiser, carrying its own response); four verification routes (wire copy, wire copy in a list, Go objects handed over directly, message decoded into a ProofD value that already received and verified the honest proof), each verifying its object twice; non-trivial = distinct (base proof, alteration); oracle (semantic): accepted => every carried range proof is on a hidden existing index and its reported statement is true of the signed value; honest => accepted"
+	r.Rule = "credential (50, tag, 20, tag) x disclosure sets x true statements (>=,<=; 3 and 4 squares; factors 1,3) on attributes 1 and 3: honest proofs; false statements at bound-+1 must not be creatable; every single-field alteration of every range proof (Cs, ds, vs, v5, l_d, sign, a, k incl. k moved across the boundary); every transplant (to another hidden index, a disclosed index below / above the largest hidden index, unused base, len(R), 1000, -1; from another credential; moved and copied, also with the non-transported attribute-response field pre-set by the sender); forgeries with the statement chosen after the challenge (commitments fixed first, bases C_i and bound k solved for once the challenge is known; 3 and 4 squares, both signs, factors 1,4,5,7); forgeries by omission (a zero-valued attribute mentioned neither as hidden nor as disclosed, a false range proof at the largest hidden index); consistent-lie forgeries (a well-formed range proof about a value satisfying the false statement, with the attribute's or a fresh randomiser, carrying its own response; or with the difference to the signed value disclosed at the same index); four verification routes (wire copy, wire copy in a list, Go objects handed over directly, message decoded into a ProofD value that already received and verified the honest proof), each verifying its object twice; non-trivial = distinct (base proof, alteration); oracle (semantic): accepted => every carried range proof is on a hidden existing index and its reported statement is true of the signed value; honest => accepted"
 	table := rangeproof.GenerateSquaresTable(4096)
 	for _, keyName := range vkit.Pick([]string{"toyA"}, []string{"toyA", "k1024a"}) {
 		k := vfK(keyName)
@@ -385,7 +386,7 @@ func TestVerifC12Crypto(t *testing.T) {
 			{1, 1, 1, 51, 51, table, "a1>=51 via m'=51 (3sq)"}, {1, -1, 1, 49, 48, table, "a1<=49 via m'=48 (3sq)"},
 			{3, 1, 3, 61, 21, nil, "3*a3>=61 via m'=21 (4sq)"}, {3, -1, 8, 159, 19, nil, "8*a3<=159 via m'=19 (4sq)"},
 		} {
-			for _, rnd := range []string{"attribute-randomiser", "fresh-randomiser"} {
+			for _, rnd := range []string{"attribute-randomiser", "fresh-randomiser", "split (the difference to the signed value disclosed at the same index)"} {
 				if _, mine := r.Next(); !mine {
 					continue
 				}
@@ -418,6 +419,13 @@ func TestVerifC12Crypto(t *testing.T) {
 					c := createChallenge(vfContext, vfNonce, append(list, contrib...), false)
 					forged = b.CreateProof(c).(*ProofD)
 					forged.RangeProofs = map[int][]*rangeproof.Proof{lie.idx: {st.BuildProof(commit, c)}}
+					if strings.HasPrefix(rnd, "split") {
+						// m = x + m': x is "disclosed" at the very index whose hidden remainder m' the response and
+						// the range proof are about (the verification equation cannot tell)
+						x := new(big.Int).Sub(attrs[lie.idx], vfInt(lie.m))
+						forged.ADisclosed[lie.idx] = x
+						forged.AResponses[lie.idx] = new(big.Int).Sub(forged.AResponses[lie.idx], new(big.Int).Mul(c, x))
+					}
 				})
 				if pan || forged == nil {
 					r.Outcome("lie:not-constructible")
